@@ -1254,3 +1254,280 @@ Proof. intro H. apply add_files_facts in H as (_ & _ & A3 & _). exact A3. Qed.
 
 Lemma edit_unit_layered u e p : edit_unit u e p = layered_unit u e p.
 Proof. unfold edit_unit, layered_unit. destruct p; reflexivity. Qed.
+
+(* --- what an extend block does to the aliases (all entries, all units) ---------- *)
+
+Lemma post_weaken {A} (m : M A) (P Q : A -> Prop) : post m P -> (forall a, P a -> Q a) -> post m Q.
+Proof. destruct m as [[a|e]|s]; cbn; auto. Qed.
+
+Definition al (units : list ubuilder) (j : nat) : option (list str) :=
+  option_map (fun u => aliases (ub_unit u)) (nth_error units j).
+
+(* update_expanded_units regenerates the SI forms of a unit and keeps the aliases they had *)
+Lemma update_loop_aliases id new : forall ps units ix,
+  post (update_loop ps id new units ix)
+       (fun r => length (fst r) = length units /\ forall j, al (fst r) j = al units j).
+Proof.
+  induction ps as [|p r IH]; intros units ix; cbn [update_loop].
+  - cbn. split; reflexivity.
+  - unfold get_ub at 1. destruct (nth_error units id) as [base|]; cbn [bind ret]; [|exact I].
+    destruct (ub_expanded base) as [f|]; [|exact I].
+    unfold get_ub. destruct (nth_error units (f p)) as [old|] eqn:Ho; cbn [bind ret]; [|exact I].
+    match goal with |- post (bind (set_ub _ _ _ ?x) _) _ => set (nu := x) end.
+    unfold set_ub. destruct (set_nth (f p) nu units) as [units'|] eqn:Es; cbn [bind ret]; [|exact I].
+    destruct (index_add_unit (ub_unit nu) (f p) ix) as [ix'|err]; cbn [lift bind]; [|exact I].
+    destruct (set_nth_spec nu _ _ _ Es) as (_ & Hlen & Hat & Hother).
+    eapply post_weaken; [apply IH|]. intros r2 [L H]. split; [congruence|].
+    intro j. rewrite H. unfold al. destruct (Nat.eq_dec j (f p)) as [E|E].
+    + subst j. rewrite Hat, Ho. reflexivity.
+    + rewrite Hother by exact E. reflexivity.
+Qed.
+
+Lemma join_alias_vec_layered a l p : join_alias_vec a l p = layered a l p.
+Proof. destruct p; reflexivity. Qed.
+
+Lemma apply_updates_aliases p si : forall ups units ix,
+  post (apply_updates ups p si units ix)
+       (fun r => forall j u, nth_error units j = Some u ->
+                  exists u', nth_error (fst r) j = Some u' /\
+                             aliases (ub_unit u') = aliases_after p ups j (aliases (ub_unit u))).
+Proof.
+  induction ups as [|[id e] r IH]; intros units ix; cbn [apply_updates].
+  - cbn. intros j u H. exists u. split; [exact H | reflexivity].
+  - unfold get_ub at 1. destruct (nth_error units id) as [u|] eqn:Hu; cbn [bind ret]; [|exact I].
+    destruct (index_remove_rec 2 units u ix) as [ix1|s]; [|exact I].
+    set (u' := with_unit u (edit_unit (ub_unit u) e p)).
+    unfold set_ub. destruct (set_nth id u' units) as [units1|] eqn:Es; cbn [bind ret]; [|exact I].
+    destruct (set_nth_spec u' _ _ _ Es) as (_ & Hlen & Hat & Hother).
+    eapply post_bind with (P := fun r => forall j, al (fst r) j = al units1 j).
+    + destruct (ub_expand_si u').
+      * unfold update_expanded_units. unfold get_ub. destruct (nth_error units1 id) as [b|]; cbn [bind ret]; [|exact I].
+        destruct (expand_si b si) as [[new|err]|s]; cbn [bind]; try exact I.
+        eapply post_weaken; [apply update_loop_aliases|]. intros r2 [_ H]. exact H.
+      * cbn. reflexivity.
+    + intros [units2 ix2] H. cbn [fst snd] in H.
+      unfold get_ub. destruct (nth_error units2 id) as [u2|]; cbn [bind ret]; [|exact I].
+      destruct (index_add_unit (ub_unit u2) id ix2) as [ix3|err]; cbn [lift bind]; [|exact I].
+      eapply post_weaken; [apply IH|]. intros r3 H3 j v Hj.
+      assert (Hv : exists v2, nth_error units2 j = Some v2 /\
+                     aliases (ub_unit v2) =
+                     if Nat.eqb id j then match xe_aliases e with Some l => layered (aliases (ub_unit v)) l p
+                                                             | None => aliases (ub_unit v) end
+                     else aliases (ub_unit v)).
+      { specialize (H j). unfold al in H. destruct (Nat.eqb id j) eqn:Eid.
+        - apply Nat.eqb_eq in Eid. subst j. rewrite Hat in H. rewrite Hu in Hj. injection Hj as <-.
+          destruct (nth_error units2 id) as [v2|]; [|discriminate]. cbn in H. injection H as H.
+          exists v2. split; [reflexivity|]. rewrite H. destruct (xe_aliases e); [apply join_alias_vec_layered | reflexivity].
+        - apply Nat.eqb_neq in Eid. rewrite Hother in H by congruence. rewrite Hj in H.
+          destruct (nth_error units2 j) as [v2|]; [|discriminate]. cbn in H. injection H as H.
+          exists v2. split; [reflexivity | exact H]. }
+      destruct Hv as (v2 & Hv2 & Ha). destruct (H3 j v2 Hv2) as (v3 & Hv3 & Ha3).
+      exists v3. split; [exact Hv3|]. rewrite Ha3, Ha. reflexivity.
+Qed.
+
+Lemma apply_updates_aliases_ok p si ups units ix units' ix' :
+  apply_updates ups p si units ix = Done (ROk (units', ix')) ->
+  forall j u, nth_error units j = Some u ->
+    exists u', nth_error units' j = Some u' /\
+               aliases (ub_unit u') = aliases_after p ups j (aliases (ub_unit u)).
+Proof. intro H. exact (post_ok _ _ _ (apply_updates_aliases p si ups units ix) H). Qed.
+
+(* the entries of a block address the units that own their keys when the block starts *)
+Lemma resolve_entries_sound units ix : WF units ix -> forall es acc,
+  post (resolve_entries es units ix acc)
+       (fun ups => exists new, ups = acc ++ new /\
+          Forall2 (fun ke ie => snd ke = snd ie /\
+                     exists u, nth_error units (fst ie) = Some u /\ In (fst ke) (all_keys (ub_unit u)))
+                  es new).
+Proof.
+  intro W. induction es as [|[k e] r IH]; intro acc; cbn [resolve_entries].
+  - exists []. rewrite app_nil_r. split; [reflexivity | constructor].
+  - unfold get_unit_id. destruct (find k ix) as [id|] eqn:Hf; cbn [lift bind]; [|exact I].
+    destruct (existsb _ acc); [exact I|].
+    destruct (wf_bwd _ _ W k id Hf) as (u & Hu & Hk).
+    unfold get_ub. rewrite Hu. cbn [bind ret]. destruct (_ && _); [exact I|].
+    eapply post_weaken; [apply IH|]. intros ups (new & -> & F).
+    exists ((id, e) :: new). rewrite <- app_assoc. split; [reflexivity|].
+    constructor; [|exact F]. cbn [fst snd]. split; [reflexivity|]. exists u. split; assumption.
+Qed.
+
+(* --- one extend entry in all the layers: the addressed unit is edited as the rule says ---- *)
+
+Lemma update_loop_keeps id new b : (forall f p, ub_expanded b = Some f -> f p <> id) ->
+  forall ps units ix, nth_error units id = Some b ->
+  post (update_loop ps id new units ix) (fun r => nth_error (fst r) id = Some b).
+Proof.
+  intros Hne. induction ps as [|p r IH]; intros units ix Hb; cbn [update_loop]; [exact Hb|].
+  unfold get_ub at 1. rewrite Hb. cbn [bind ret]. destruct (ub_expanded b) as [f|] eqn:Hf; [|exact I].
+  unfold get_ub. destruct (nth_error units (f p)) as [old|]; cbn [bind ret]; [|exact I].
+  match goal with |- post (bind (set_ub _ _ _ ?x) _) _ => set (nu := x) end.
+  unfold set_ub. destruct (set_nth (f p) nu units) as [units'|] eqn:Es; cbn [bind ret]; [|exact I].
+  destruct (index_add_unit (ub_unit nu) (f p) ix) as [ix'|err]; cbn [lift bind]; [|exact I].
+  destruct (set_nth_spec nu _ _ _ Es) as (_ & _ & _ & Hother).
+  apply IH. rewrite Hother; [exact Hb|]. intro X. exact (Hne f p eq_refl (eq_sym X)).
+Qed.
+
+Lemma apply_update_single id e p si units ix u : WF units ix -> nth_error units id = Some u ->
+  post (apply_updates [(id, e)] p si units ix)
+       (fun r => nth_error (fst r) id = Some (with_unit u (layered_unit (ub_unit u) e p))).
+Proof.
+  intros W Hu. rewrite <- edit_unit_layered. cbn [apply_updates].
+  unfold get_ub at 1. rewrite Hu. cbn [bind ret].
+  destruct (index_remove_rec 2 units u ix) as [ix1|s]; [|exact I].
+  set (u' := with_unit u (edit_unit (ub_unit u) e p)).
+  unfold set_ub. destruct (set_nth id u' units) as [units1|] eqn:Es; cbn [bind ret]; [|exact I].
+  destruct (set_nth_spec u' _ _ _ Es) as (_ & _ & Hat & _).
+  eapply post_bind with (P := fun r => nth_error (fst r) id = Some u').
+  - destruct (ub_expand_si u').
+    + unfold update_expanded_units, get_ub. rewrite Hat. cbn [bind ret].
+      destruct (expand_si u' si) as [[new|err]|s]; cbn [bind]; try exact I.
+      apply update_loop_keeps; [|exact Hat].
+      intros f q Hf. destruct (wf_exp _ _ W id u f Hu Hf) as [_ Hall]. destruct (Hall q) as [H _]. exact H.
+    + cbn. exact Hat.
+  - intros [units2 ix2] H2. cbn [fst] in H2. unfold get_ub. rewrite H2. cbn [bind ret].
+    destruct (index_add_unit (ub_unit u') id ix2); cbn [lift bind]; [|exact I]. cbn. exact H2.
+Qed.
+
+(* the declared units, in order, are the first units of the builder *)
+Lemma add_entries_units q sys es : forall units ix units' ix',
+  add_entries q sys es units ix = ROk (units', ix') ->
+  map ub_unit units' = map ub_unit units ++ map (fun e => unit_of (q, sys, e)) es.
+Proof.
+  induction es as [|e r IH]; intros units ix units' ix' H; cbn [add_entries] in H.
+  - injection H as <- <-. cbn. rewrite app_nil_r. reflexivity.
+  - apply rbind_ok in H as ([[u1 i1] id] & H1 & H). unfold add_unit in H1.
+    apply rbind_ok in H1 as (ix1 & _ & H1). injection H1 as <- <- <-.
+    apply IH in H. rewrite H, map_app, <- app_assoc. reflexivity.
+Qed.
+
+Definition group_decl (g : qgroup) : list (pq * option system * unit_entry) :=
+  match qg_units g with
+  | Some d => map (fun se => (qg_quantity g, fst se, snd se)) (entries_of d)
+  | None => []
+  end.
+
+Lemma add_group_units st g st' : add_group st g = ROk st' ->
+  map ub_unit (b_units st') = map ub_unit (b_units st) ++ map unit_of (group_decl g).
+Proof.
+  unfold add_group. intro H. apply rbind_ok in H as ([units ix] & Hu & H).
+  apply rbind_ok in H as (best & _ & H). injection H as <-. cbn [b_units].
+  unfold group_decl. destruct (qg_units g) as [[l|m i u]|].
+  - apply add_entries_units in Hu. rewrite Hu. cbn [entries_of]. rewrite !map_map. reflexivity.
+  - apply rbind_ok in Hu as ([u1 i1] & H1 & Hu). apply rbind_ok in Hu as ([u2 i2] & H2 & Hu).
+    apply add_entries_units in H1, H2, Hu. rewrite Hu, H2, H1. cbn [entries_of].
+    rewrite !map_app, !map_map, <- !app_assoc. reflexivity.
+  - injection Hu as <- <-. cbn. rewrite app_nil_r. reflexivity.
+Qed.
+
+Lemma add_groups_units gs : forall st st', add_groups st gs = ROk st' ->
+  map ub_unit (b_units st') = map ub_unit (b_units st) ++ map unit_of (flat_map group_decl gs).
+Proof.
+  induction gs as [|g r IH]; intros st st' H; cbn [add_groups] in H.
+  - injection H as <-. cbn. rewrite app_nil_r. reflexivity.
+  - apply rbind_ok in H as (st1 & H1 & H). apply add_group_units in H1. apply IH in H.
+    rewrite H, H1. cbn [flat_map]. rewrite map_app, <- app_assoc. reflexivity.
+Qed.
+
+Lemma add_files_units fs : forall st st', add_files st fs = ROk st' ->
+  map ub_unit (b_units st') = map ub_unit (b_units st) ++ map unit_of (declared fs) /\
+  b_extend st' = b_extend st ++ extend_layers fs.
+Proof.
+  induction fs as [|f r IH]; intros st st' H; cbn [add_files] in H.
+  - injection H as <-. cbn. rewrite !app_nil_r. split; reflexivity.
+  - apply rbind_ok in H as (st1 & H1 & H). unfold add_units_file in H1.
+    apply rbind_ok in H1 as (st0 & H0 & H1). injection H1 as <-.
+    pose proof (add_groups_units _ _ _ H0) as U0. apply add_groups_facts in H0 as (_ & _ & _ & X0 & _).
+    apply IH in H as [U E]. cbn [b_units b_extend] in U, E. split.
+    + rewrite U, U0. unfold declared. cbn [flat_map]. rewrite map_app, <- app_assoc. reflexivity.
+    + rewrite E, X0. unfold extend_layers. cbn [flat_map]. destruct (uf_extend f); [rewrite <- app_assoc|]; reflexivity.
+Qed.
+
+Lemma set_nth_map {A B} (f : A -> B) x : forall l i l' y,
+  set_nth i x l = Some l' -> nth_error l i = Some y -> f x = f y -> map f l' = map f l.
+Proof.
+  induction l as [|a r IH]; intros i l' y H Hy E; [destruct i; discriminate|].
+  destruct i as [|i]; cbn [set_nth] in H.
+  - injection H as <-. cbn in Hy. injection Hy as <-. cbn. rewrite E. reflexivity.
+  - destruct (set_nth i x r) as [r'|] eqn:Er; [|discriminate]. injection H as <-. cbn.
+    f_equal. exact (IH i r' y Er Hy E).
+Qed.
+
+Lemma add_expanded_prefix new : forall ps ids units ix units' ix' ids',
+  add_expanded ps new ids units ix = ROk (units', ix', ids') -> exists ext, units' = units ++ ext.
+Proof.
+  induction ps as [|p r IH]; intros ids units ix units' ix' ids' H; cbn [add_expanded] in H.
+  - injection H as <- _ _. exists []. rewrite app_nil_r. reflexivity.
+  - apply rbind_ok in H as ([[u1 i1] id] & H1 & H). unfold add_unit in H1.
+    apply rbind_ok in H1 as (ix1 & _ & H1). injection H1 as <- <- <-.
+    apply IH in H as (ext & ->). exists (new p :: ext). rewrite <- app_assoc. reflexivity.
+Qed.
+
+(* the SI expansion of finish appends units and leaves the existing ones as they are *)
+Lemma expand_loop_prefix si : forall n id units ix,
+  post (expand_loop n id si units ix) (fun r => exists ext, map ub_unit (fst r) = map ub_unit units ++ ext).
+Proof.
+  induction n as [|n IH]; intros id units ix; cbn [expand_loop].
+  - cbn. exists []. rewrite app_nil_r. reflexivity.
+  - unfold get_ub. destruct (nth_error units id) as [u|] eqn:Hu; cbn [bind ret]; [|exact I].
+    destruct (ub_expand_si u).
+    + destruct (expand_si u si) as [[new|err]|s]; cbn [bind]; try exact I.
+      destruct (add_expanded all_sipre new (fun _ => O) units ix) as [[[units1 ix1] ids]|err] eqn:Ea;
+        cbn [lift bind]; [|exact I].
+      apply add_expanded_prefix in Ea as (ext & ->).
+      match goal with |- post (bind (bind (set_ub _ _ _ ?x) _) _) _ => set (u' := x) end.
+      unfold set_ub. destruct (set_nth id u' (units ++ ext)) as [units2|] eqn:Es; cbn [bind ret]; [|exact I].
+      eapply post_weaken; [apply IH|]. intros r2 (ext2 & E2). cbn [fst] in *.
+      assert (Hu1 : nth_error (units ++ ext) id = Some u).
+      { rewrite nth_error_app1; [exact Hu|]. apply nth_error_Some. congruence. }
+      rewrite (set_nth_map ub_unit u' _ _ _ u Es Hu1 eq_refl) in E2.
+      rewrite map_app, <- app_assoc in E2. eauto.
+    + cbn [bind ret]. apply IH.
+Qed.
+
+Lemma build_single_extend files c : build cfg_new files = Done (ROk c) -> single_extend_ok files c.
+Proof.
+  unfold build. intro H. apply bind_ok in H as (st & Hst & H). unfold lift in Hst. injection Hst as Hst.
+  pose proof (rspec_ok _ _ _ (add_files_S1 files bstate0 S1_init) Hst) as [[W0 _] _].
+  destruct (add_files_units _ _ _ Hst) as [HU HE]. cbn [bstate0 b_units b_extend map app] in HU, HE.
+  unfold finish in H.
+  apply bind_ok in H as ([units1 ix1] & H1 & H). apply bind_ok in H as ([units ix] & H2 & H).
+  apply bind_ok in H as (bv & _ & H). apply bind_ok in H as (bm & _ & H).
+  apply bind_ok in H as (bl & _ & H). apply bind_ok in H as (bt & _ & H).
+  apply bind_ok in H as (bh & _ & H). apply bind_ok in H as (fr & _ & H).
+  injection H as <-. cbn [c_units].
+  intros p key e j d Hext Hd Hkey.
+  (* after the SI expansion *)
+  assert (I1 : WF units1 ix1).
+  { refine (proj1 (spec_ok _ _ _ (expand_loop_spec (b_si st) (length (b_units st)) 0 (b_units st) (b_index st) W0 _ _) H1)).
+    - lia.
+    - intros i u Hi _ _. split; [lia|]. apply nth_error_Some. congruence. }
+  destruct (post_ok _ _ _ (expand_loop_prefix (b_si st) (length (b_units st)) 0 (b_units st) (b_index st)) H1)
+    as (ext & Hpre). cbn [fst] in Hpre. rewrite HU in Hpre.
+  assert (Hj : nth_error (map ub_unit units1) j = Some (unit_of d)).
+  { rewrite Hpre. rewrite nth_error_app1.
+    - apply map_nth_error. exact Hd.
+    - rewrite map_length. apply nth_error_Some. congruence. }
+  apply nth_error_map_inv in Hj as (ub1 & Hub1 & Hud).
+  (* the block *)
+  rewrite HE, Hext in H2. cbn [apply_extend_groups ex_units ex_prec] in H2.
+  apply bind_ok in H2 as (ups & Hr & H2). apply bind_ok in H2 as ([units' ix'] & Hu & H2).
+  injection H2 as <- <-.
+  assert (Hups : ups = [(j, e)]).
+  { cbn [resolve_entries] in Hr. unfold get_unit_id in Hr.
+    rewrite (wf_fwd _ _ I1 j ub1 key Hub1) in Hr by (rewrite <- Hud; exact Hkey).
+    cbn [lift bind existsb] in Hr. unfold get_ub in Hr. rewrite Hub1 in Hr. cbn [bind ret] in Hr.
+    destruct (_ && _); [discriminate|]. injection Hr as <-. reflexivity. }
+  subst ups.
+  pose proof (post_ok _ _ _ (apply_update_single j e p (b_si st) units1 ix1 ub1 I1 Hub1) Hu) as Hfin.
+  cbn [fst] in Hfin. apply (map_nth_error ub_unit) in Hfin. cbn [c_units]. rewrite Hfin. cbn [with_unit ub_unit].
+  rewrite <- Hud. reflexivity.
+Qed.
+
+Lemma resolve_entries_sound_ok units ix es ups : WF units ix ->
+  resolve_entries es units ix [] = Done (ROk ups) ->
+  Forall2 (fun ke ie => snd ke = snd ie /\
+             exists u, nth_error units (fst ie) = Some u /\ In (fst ke) (all_keys (ub_unit u)))
+          es ups.
+Proof.
+  intros W H. destruct (post_ok _ _ _ (resolve_entries_sound units ix W es []) H) as (new & -> & F). exact F.
+Qed.
